@@ -313,7 +313,8 @@ func rawParts(fr *evalFrame, v ssa.Value, depth int, out map[ssa.Value]bool, see
 		} else if _, ok := x.X.(*ssa.Const); ok {
 			rawParts(fr, x.Y, depth+1, out, seen)
 		} else {
-			out[v] = true // not a simple carry expression
+			rawParts(fr, x.X, depth+1, out, seen)
+			rawParts(fr, x.Y, depth+1, out, seen)
 		}
 	case *ssa.Convert:
 		if isIntType(x.Type()) && isFloatType(x.X.Type()) {
@@ -381,26 +382,54 @@ func r04_9(c *Ctx, r *Report) {
 		return
 	}
 	top := &evalFrame{fn: fn}
-	var parts [3]ssa.Value
+	// the float-to-integer conversions the three time arguments flow from (through carries, merges and
+	// inlined helpers), ordered by what each is computed from: the hour from the fraction, the minute
+	// from what the hour left, the second from what the minute left
+	set := map[ssa.Value]bool{}
 	for i := 0; i < 3; i++ {
-		set := map[ssa.Value]bool{}
 		rawParts(top, call.Common().Args[3+i], 0, set, map[ssa.Value]bool{})
-		if len(set) != 1 {
-			r.bad(rule, construct, c.pos(call.Pos()), fmt.Sprintf("the %s argument does not flow from one float-to-integer conversion plus carries (%d sources) (undecided = fail)", []string{"hour", "minute", "second"}[i], len(set)))
+	}
+	var convs []ssa.Value
+	for v := range set {
+		if _, isConv := v.(*ssa.Convert); !isConv {
+			r.bad(rule, construct, c.pos(call.Pos()), "a time argument does not flow from float-to-integer conversions and integer carries only (undecided = fail)")
 			return
 		}
-		for v := range set {
-			if _, isConv := v.(*ssa.Convert); !isConv {
-				r.bad(rule, construct, c.pos(call.Pos()), "a time argument does not flow from a float-to-integer conversion (undecided = fail)")
-				return
-			}
-			parts[i] = v
-		}
+		convs = append(convs, v)
 	}
-	if parts[0] == parts[1] || parts[1] == parts[2] || parts[0] == parts[2] {
-		r.bad(rule, construct, c.pos(call.Pos()), "hour, minute and second do not come from three different conversions (undecided = fail)")
+	if len(convs) != 3 {
+		r.bad(rule, construct, c.pos(call.Pos()), fmt.Sprintf("the time arguments flow from %d float-to-integer conversions, expected hour, minute and second (undecided = fail)", len(convs)))
 		return
 	}
+	inside := func(v ssa.Value) int {
+		n := 0
+		seen := map[ssa.Value]bool{}
+		var walk func(x ssa.Value, depth int)
+		walk = func(x ssa.Value, depth int) {
+			if x == nil || depth > 40 || seen[x] {
+				return
+			}
+			seen[x] = true
+			if x != v && set[x] {
+				n++
+			}
+			if ins, ok := x.(ssa.Instruction); ok {
+				for _, op := range ins.Operands(nil) {
+					if *op != nil {
+						walk(*op, depth+1)
+					}
+				}
+			}
+		}
+		walk(v, 0)
+		return n
+	}
+	sort.Slice(convs, func(i, j int) bool { return inside(convs[i]) < inside(convs[j]) })
+	if inside(convs[0]) != 0 || inside(convs[1]) != 1 || inside(convs[2]) != 2 {
+		r.bad(rule, construct, c.pos(call.Pos()), "the three conversions are not computed one from the remainder of the other (undecided = fail)")
+		return
+	}
+	parts := [3]ssa.Value{convs[0], convs[1], convs[2]}
 	runCase := func(h, m, s int64) (absSolar, string) {
 		var leaf leafX
 		leaf = func(fr *evalFrame, v ssa.Value) (interface{}, bool) {
